@@ -166,6 +166,7 @@ def run_cases(chk: Check, n, with_model=True):
                    family=[(str(k), str(p)) for k, p in c["fam"]],
                    all=[(str(k), str(p)) for k, p in zip(c["keys"], c["ps"])])
         before = copy.deepcopy(c["results"])
+        sel_before = copy.deepcopy(c["sel"])
         ids_before = {id(v) for er in (c["results"].values() if isinstance(c["results"], dict) else [c["results"]])
                       for v in er.values()}
         try:
@@ -176,6 +177,10 @@ def run_cases(chk: Check, n, with_model=True):
         # purity
         if repr(before) != repr(c["results"]):
             chk.fail("the input results were modified", dict(input=inp))
+        if c["sel"] != sel_before or type(c["sel"]) is not type(sel_before):
+            chk.fail("the selection passed as `metrics` was modified by the call (the caller's own object)",
+                     dict(input=inp, before=repr(sel_before), after=repr(c["sel"])))
+            c["sel"] = sel_before
         for er in out.values():
             for v in er.values():
                 if id(v) in ids_before:
@@ -277,6 +282,11 @@ def run_cases(chk: Check, n, with_model=True):
                 shuffled[ek] = tt.experiment.ExperimentResult(dict(inner))
             out2 = call_real(c["kind"], c["dep"], c["method"], shuffled, c["sel"], c["alpha"])
             pvals = [p for _, p in c["fam"]]
+            if [(ek, nm) for ek in out for nm in out[ek]] != [(ek, nm) for ek in out if ek in out2 for nm in out[ek] if nm in out2[ek]]:
+                chk.fail("a second call on the same results in another order adjusts a different family",
+                         dict(input=inp, first=[str(k) for k in got_keys],
+                              second=[str((ek, nm)) for ek, er in out2.items() for nm in er]))
+                continue
             for (ek, nm), (pa, aa, rej, p) in zip(got_keys, real):
                 o2 = out2[ek][nm]
                 if not close(o2["pvalue_adj"], pa, 1e-12) or int(o2["null_rejected"]) != int(rej):
